@@ -256,6 +256,12 @@ func runExecutorScript(t fataler, check string, taskMode bool, workers int, ops 
 				if !x.isNil && shutdownReturned {
 					return fmt.Sprintf("task %d: executor accepted a task although Shutdown had returned", x.idx)
 				}
+				if ev != nil && x.isNil {
+					// a re-scheduling that is refused (shutdown) replaces nothing: the pending task of the identifier is
+					// still owed (judged like a task that was never touched)
+					ev = nil
+					labels["refused_reschedule_keeps_pending"] = true
+				}
 				if ev != nil {
 					ev.ret = ret
 					ev.ignBefore = shutdownCalled && shutdownFlags&fIgnore != 0
@@ -263,12 +269,8 @@ func runExecutorScript(t fataler, check string, taskMode bool, workers int, ops 
 					victim.victimOf = ev
 					events = append(events, ev)
 				}
-				if taskMode {
-					if x.isNil {
-						delete(cur, o.ID)
-					} else {
-						cur[o.ID] = x
-					}
+				if taskMode && !x.isNil {
+					cur[o.ID] = x
 				}
 				if due := time.Now().Add(d); due.After(lastDue) {
 					lastDue = due
@@ -416,7 +418,8 @@ func runExecutorScript(t fataler, check string, taskMode bool, workers int, ops 
 					labels[ev.kind+"_sound_zone"] = true
 					soundEvent = true
 					lo, hi, why = 0, 0, fmt.Sprintf("op %d (%s of its identifier) returned %.3fms before its scheduled time", ev.opIndex, ev.kind, msOf(x.lower.Sub(ev.ret)))
-					if ev.kind == "cancel" && !ev.result {
+					// (after a Shutdown with CancelPendingElements the task may have been dropped already: false is the truth then)
+					if ev.kind == "cancel" && !ev.result && !ev.cancelBefore {
 						return fmt.Sprintf("op %d: Cancel(%s) returned false %.3fms before the scheduled time of the pending task %d", ev.opIndex, x.id, msOf(x.lower.Sub(ev.ret)), x.idx)
 					}
 				default:
